@@ -6,7 +6,7 @@
    (evidence: tested, not proved). *)
 From Coq Require Import List NArith ZArith Bool String Permutation.
 From Verif Require Import Model.Analyzer Gen.GenStages Proofs.AnalyzerProofs Base.Text Model.Scope Proofs.ScopeProofs Gen.GenRules Model.Rules Proofs.RulesProofs.
-From Verif Require Model.ExprKind Proofs.ExprKindProofs.
+From Verif Require Model.ExprKind Proofs.ExprKindProofs Model.DataDecl Proofs.DataDeclProofs.
 Import ListNotations.
 
 (* P0003 / P0005: the scan reports nothing exactly when the names are pairwise distinct, and the verdict
@@ -164,3 +164,14 @@ Proof. exact ExprKindProofs.resolved_by_unit. Qed.
 Theorem C02_identifier_in_enumeration_assignment : forall tbl n ls, ExprKind.find_kind tbl n = ExprKind.VkEnumType ->
   ExprKind.seg_res tbl (ExprKind.SAssign (ExprKind.AtNamed n) ls) = Some (map ExprKind.ErEnum ls).
 Proof. exact ExprKindProofs.late_in_enum_assignment. Qed.
+
+(* Aliases of data types (A : B; resolved by xform_resolve_late_bound_data_decl): when the transformation answers, every
+   alias has been given the kind of a declared type that its chain of bases reaches -- there is a path of alias
+   declarations of the library from a declaration of that kind to the alias.  Partial: the converse (every alias whose
+   chain reaches a declared type is resolved, for a library sorted bases-first with unique names) is stated in
+   DataDeclProofs.resolves_complete_statement and is supported by the correspondence only. *)
+Theorem C02_alias_resolution_sound_partial : forall fs ks, DataDecl.xform_data_decl fs = inl ks ->
+  exists s, DataDecl.dwalk DataDecl.dinit0 fs = inl s /\
+    Forall2 (fun n k => exists r p, In (DataDecl.TyDecl r (Some k) p) fs /\ DataDeclProofs.apath fs r n)
+            (flat_map (fun f => match f with DataDecl.TyAlias n _ => [n] | _ => [] end) fs) ks.
+Proof. exact DataDeclProofs.xform_data_decl_sound. Qed.
